@@ -27,9 +27,9 @@ from ..universe import WORLD
 from .c07 import FULL, SMALL, TINY
 
 TYPES = {'Foo': A.Foo, 'FooBar': A.FooBar, 'Foo_': A.Foo_, 'BFoo': B.Foo, 'JFoo': A.JFoo, 'P2': A.P2,
-         'Leaf': A.Leaf, 'BLeaf': B.Leaf, 'NoCacheT': A.NoCacheT, 'PFoo': A.PFoo}
-OUTER = ('Foo', 'FooBar', 'Foo_', 'BFoo', 'JFoo', 'P2', 'PFoo', 'NoCacheT')
-QUERY_TYPES = (A.Foo, A.FooBar, A.Foo_, B.Foo, A.JFoo, A.P2, A.PFoo, A.Leaf, B.Leaf, A.NoCacheT)
+         'Leaf': A.Leaf, 'BLeaf': B.Leaf, 'NoCacheT': A.NoCacheT, 'PFoo': A.PFoo, 'SFoo': A.SFoo}
+OUTER = ('Foo', 'FooBar', 'Foo_', 'BFoo', 'JFoo', 'P2', 'PFoo', 'NoCacheT', 'SFoo')
+QUERY_TYPES = (A.Foo, A.FooBar, A.Foo_, B.Foo, A.JFoo, A.P2, A.PFoo, A.Leaf, B.Leaf, A.NoCacheT, A.SFoo)
 
 
 class AltPickle(PickleCache):
@@ -89,6 +89,10 @@ def run_group(args):
         # a foreign-format entry under a PickleCache-style key of type Foo
         foreign = A.Foo(p='__foreign__')
         AltPickle().save(storage, foreign, TaskResult(value='F', meta=FIXED_META))
+        # ... and the other way round: an entry written by plain PickleCache under a key of SFoo, whose
+        # cache format is *derived* from PickleCache (same key prefix, different result encoding)
+        foreign2 = A.SFoo(p='__foreign2__')
+        PickleCache().save(storage, foreign2, TaskResult(value='F2', meta=FIXED_META))
         size = min(tree_size(tree) for _, tree in group)
 
         def bad(key, msg):
@@ -110,7 +114,7 @@ def run_group(args):
                 c = canon(g)
                 seen[c] = seen.get(c, 0) + 1
                 if c not in want:
-                    if g == foreign:
+                    if g == foreign or g == foreign2:
                         bad('foreign-format-returned', f'cached_tasks([{qt.__qualname__}]) returned an entry written by another cache format')
                     else:
                         bad('not-faithful', f'cached_tasks([{qt.__qualname__}]) returned {g!r}, which equals no cached task '
@@ -130,7 +134,7 @@ def run_group(args):
                 elif n > 1:
                     bad('duplicate', f'cached task {describe_task(x)} returned {n} times')
         # multi-type queries return the union, each once
-        for combo in ((A.Foo, A.FooBar), (A.FooBar, A.Foo), (A.Foo, B.Foo, A.Foo_), (A.Leaf, B.Leaf, A.JFoo)):
+        for combo in ((A.Foo, A.FooBar), (A.FooBar, A.Foo), (A.Foo, B.Foo, A.Foo_), (A.Leaf, B.Leaf, A.JFoo), (A.Foo, A.Foo), (A.Leaf, A.Foo, A.Leaf)):
             if not all(q in got_by_type for q in combo):
                 continue
             try:
@@ -138,9 +142,10 @@ def run_group(args):
             except BaseException as e:  # noqa
                 bad(f'cached_tasks-raised:{type(e).__name__}', f'cached_tasks({[q.__qualname__ for q in combo]}) raised {e}')
                 continue
-            want_n = sum(len(got_by_type[q]) for q in combo)
+            distinct = list(dict.fromkeys(combo))       # a type named twice still selects its entries once
+            want_n = sum(len(got_by_type[q]) for q in distinct)
             if len(got) != want_n or sorted(map(repr, (canon(g) for g in got))) != sorted(
-                    repr(canon(g)) for q in combo for g in got_by_type[q]):
+                    repr(canon(g)) for q in distinct for g in got_by_type[q]):
                 bad('multi-type-query', f'cached_tasks({[q.__qualname__ for q in combo]}) returned {len(got)} tasks, per-type queries {want_n}')
         # running the returned tasks loads the stored results
         for qt, got in got_by_type.items():
@@ -193,7 +198,7 @@ def make_groups(ts, outer_cycle, per_group=24):
 
 def run(tier: str, seed: int) -> Result:
     silence_labtech()
-    cyc = ('FooBar', 'Foo_', 'BFoo', 'JFoo', 'P2', 'PFoo', 'NoCacheT')
+    cyc = ('FooBar', 'Foo_', 'BFoo', 'JFoo', 'P2', 'PFoo', 'NoCacheT', 'SFoo')
     if tier == 'quick':
         ts = trees(2, TINY, width=2, task_types=('Leaf', 'BLeaf'), inner_leaves=TINY)
         ts += trees(1, FULL, width=1, task_types=('Leaf',), inner_leaves=FULL)
